@@ -3,6 +3,9 @@ package main
 import (
 	"bytes"
 	"fmt"
+	"github.com/itchio/lake/pools/fspool"
+	"github.com/itchio/lake/tlc"
+	"github.com/itchio/wharf/archiver/containerarchiver"
 	"os"
 	"os/exec"
 	"strings"
@@ -48,6 +51,13 @@ func c19Tree(c *C19Case) *wvlib.Build {
 		add(wvlib.BEntry{Path: "abs-link", Kind: 'l', Dest: "/abs/olute"})
 		add(wvlib.BEntry{Path: "top/dir-link", Kind: 'l', Dest: "mid"})
 		add(wvlib.BEntry{Path: "empty.bin", Kind: 'f'})
+		// files shorter than any magic number or header a copy routine might sniff
+		add(wvlib.BEntry{Path: "VERSION", Kind: 'f', Data: []byte("7\n")})
+		add(wvlib.BEntry{Path: "steam_appid.txt", Kind: 'f', Data: []byte("480")})
+		add(wvlib.BEntry{Path: "one-byte", Kind: 'f', Data: r.Bytes(1)})
+		add(wvlib.BEntry{Path: "four-bytes-png", Kind: 'f', Data: []byte("\x89PNG")})
+		add(wvlib.BEntry{Path: "looks-like.gz", Kind: 'f', Data: append([]byte{0x1f, 0x8b, 8, 0}, r.Bytes(50)...)})
+		add(wvlib.BEntry{Path: "looks-like.zip", Kind: 'f', Data: append([]byte("PK\x03\x04"), r.Bytes(90)...)})
 		// names a path filter may misjudge: components that merely START with dots (a ConfigMap-volume layout among them)
 		add(wvlib.BEntry{Path: "..2026_09_26/config.yaml", Kind: 'f', Data: r.Bytes(40)})
 		add(wvlib.BEntry{Path: "..data", Kind: 'l', Dest: "..2026_09_26"})
@@ -145,7 +155,23 @@ func c19One(env *Env, m *wvlib.Model, c *C19Case) {
 		return
 	}
 	var buf bytes.Buffer
-	if _, err := archiver.CompressZip(&buf, src, cons); err != nil {
+	if c.Format == "czip" {
+		// the container-based zip writer (archiver/containerarchiver): walk the tree into a tlc.Container, read it
+		// through an fspool
+		container, werr := tlc.WalkAny(src, tlc.WalkOpts{})
+		if werr != nil {
+			env.R.Note("walk: %v", werr)
+			return
+		}
+		cres, err := containerarchiver.CompressZip(&buf, container, fspool.New(container, src), cons)
+		if err != nil {
+			env.R.Violate("compress-error:czip", err.Error(), c)
+			return
+		}
+		if cres != nil && cres.UncompressedSize != container.Size {
+			env.R.Violate("compress-size-wrong:czip", fmt.Sprintf("CompressResult.UncompressedSize=%d, the container holds %d bytes", cres.UncompressedSize, container.Size), c)
+		}
+	} else if _, err := archiver.CompressZip(&buf, src, cons); err != nil {
 		env.R.Violate("compress-error:zip", err.Error(), c)
 		return
 	}
@@ -257,6 +283,7 @@ func runC19(env *Env) {
 		seed := rng.Next()
 		shape := []string{"mixed", "manysmall", "mixed", "bigfirst"}[t%4]
 		cases = append(cases, &C19Case{Seed: seed, Shape: shape, Format: "tar", Interrupt: -1})
+		cases = append(cases, &C19Case{Seed: seed, Shape: shape, Format: "czip", Workers: []int{1, 3, -1}[t%3], Interrupt: -1})
 		for _, w := range workers {
 			cases = append(cases, &C19Case{Seed: seed, Shape: shape, Format: "zip", Workers: w, Interrupt: -1, Repeat: 2})
 			nInt := 4
